@@ -267,3 +267,38 @@ PROPS['C04'] = dict(
     explanation='Verus: CacheD::delete marks the entry before it returns (no read returns it afterwards, every other entry untouched) and queues exactly one Delete. '
                 'Kani: the three deletions the worker performs remove exactly that key / id / expiry entry and are the identity for unknown ones.',
 )
+
+WORKER_ASSUME = ['T6 ghost World as in C06; the worker-level contract of maybe_add composes verus:policy::maybe_add with the delete hook `|key| store.delete(&key)` built in CommandExecutor::spin '
+                 '(that composition is ASSUMED: a closure cannot carry the ghost token)',
+                 'ids are never reused (kani:idgen/ids_strictly_increase); only the single worker thread executes put / put_with_ttl / delete / UpdateWeight',
+                 'INV_w (used = sum of charged weights) is carried by the Kani CacheWeight triples, not by the Verus World']
+PROPS['C05'] = dict(
+    level='proof', title='Weight accounting matches the set of held keys at quiescence',
+    verus=['worker', 'policy'], verus_only={'policy': [r'maybe_add', r'create_space', r'delete_with_hook', r'update']},
+    kani={'quick': ['cw/add_n2', 'cw/delete_n2', 'cw/update_outside_region_n2', 'store/put_n2', 'store/put_with_ttl_n2', 'store/delete_n2', 'store/is_present_n2',
+                    'ttl/put_n2_s2', 'ttl/delete_n2_s2', 'ttl/sweep_n2_s2', 'idgen/ids_strictly_increase'],
+          'thorough': ['cw/add_n3', 'cw/delete_n3', 'store/put_n3', 'store/delete_n3', 'ttl/put_n3_s4', 'ttl/sweep_n3_s4']},
+    kani_meta=BND(['cw/add_n2', 'cw/delete_n2', 'cw/update_outside_region_n2', 'store/put_n2', 'store/put_with_ttl_n2', 'store/delete_n2', 'store/is_present_n2',
+                   'ttl/put_n2_s2', 'ttl/delete_n2_s2', 'ttl/sweep_n2_s2', 'cw/add_n3', 'cw/delete_n3', 'store/put_n3', 'store/delete_n3', 'ttl/put_n3_s4', 'ttl/sweep_n3_s4']),
+    harness_timeout='1500s', kani_timeout=3400,
+    bounded_note='the leaf contracts (CacheWeight / Store / TTLTicker operations) the Verus proof relies on, from arbitrary pre-states with at most N entries',
+    floor={'quick': 18, 'thorough': 24},
+    assumptions=[CONC] + WORKER_ASSUME,
+    not_covered=['put racing upsert / eviction racing upsert from another thread (put_or_update updates the Store and the ticker outside the worker): not explored',
+                 'the sweep composition hook -> CacheWeight::delete(id, store-hook) relies on the same bijection; its steps are checked separately (kani:ttl/sweep, kani:cw/delete)'],
+    explanation='INV_acct (the charged ids are exactly the ids of the Store entries, key <-> id bijective; every expiring entry is registered in the ticker) is preserved by the worker\'s put, put_with_ttl and delete '
+                'for ALL states (Verus). A put whose key is already held (two puts queued back to back) is refused without overwriting or charging a second id - this was a genuine defect, fixed.',
+)
+PROPS['C04']['verus'] = ['api', 'worker']
+PROPS['C04']['verus_only'] = {'api': [r'CacheD::delete$', r'CacheD::is_shutting_down'], 'worker': [r'CommandExecutor::delete']}
+PROPS['C04']['floor'] = {'quick': 8, 'thorough': 11}
+PROPS['C04']['assumptions'] = PROPS['C04']['assumptions'] + WORKER_ASSUME
+PROPS['C04']['explanation'] += ' Verus (worker): CommandExecutor::delete of a held key returns Accepted with its Store entry, its charged id and its expiry entry gone; of a key that is not held returns Rejected(KeyDoesNotExist) and changes nothing.'
+PROPS['C16']['verus'] = ['worker', 'lemmas']
+PROPS['C16']['verus_only'] = {'worker': [r'CommandExecutor::put'], 'lemmas': [r'lemma_stats_step']}
+PROPS['C16']['floor'] = {'quick': 19, 'thorough': 25}
+PROPS['C16']['explanation'] += ' keys_rejected is bumped exactly when admission refuses a put (Verus, worker).'
+PROPS['C12']['verus'] = ['worker', 'lemmas']
+PROPS['C12']['verus_only'] = {'worker': [r'CommandExecutor::put'], 'lemmas': [r'lemma_poll_after_flag']}
+PROPS['C12']['floor'] = {'quick': 9, 'thorough': 9}
+PROPS['C12']['not_covered'] = ['the worker loop itself (status = execute(command); acknowledgement.done(status)) is read, not verified: "the effect is visible when Accepted is observed" rests on put_outcome (Verus) plus that order']
